@@ -347,6 +347,10 @@ pub struct BoundaryCase {
     pub known: u8,
     /// true: reply to a SYN (own digest present), false: ACK path.
     pub synack: bool,
+    /// The sender also holds a member whose copy has no entries but a high max version: it is
+    /// offered last, as a member header followed by an explicit max version (the 9-byte tail).
+    #[serde(default)]
+    pub tail_member: bool,
 }
 
 fn reply_len_for(case: &BoundaryCase, last_len: usize, tally: &mut Tally, check: bool) -> Result<(usize, bool), Failure> {
@@ -358,6 +362,19 @@ fn reply_len_for(case: &BoundaryCase, last_len: usize, tally: &mut Tally, check:
         node.self_node_state().set(format!("k{i:04}"), expand_value(case.class, case.value_len as usize, case.seed as u64 + i as u64));
     }
     node.self_node_state().set("zlast", expand_value(case.class, last_len, case.seed as u64 + 7777));
+    if case.tail_member {
+        let tail = WId::v4("tail", 0, 9500);
+        let intro = WMsg::Syn { cluster_id: "cluster".into(), digest: vec![WNodeDigest { id: tail.clone(), heartbeat: 5, last_gc: 0, max_version: 0 }] };
+        let fill = WMsg::Ack { ops: vec![WOp::Node { id: tail.clone(), last_gc: 0, from_version: 0 }, WOp::SetMax(1_000_000)] };
+        for m in [intro, fill] {
+            let (bytes, _) = encode_msg(&m, Blocking::Canonical);
+            let (msg, _) = real_decode(&bytes).map_err(|e| Failure::new("C07/setup", e))?;
+            node.verif_process_message(msg);
+        }
+        if node.node_state(&tail.to_real()).map(|ns| ns.max_version()) != Some(1_000_000) {
+            return vio("C07/setup", "cannot install the tail member".into());
+        }
+    }
     let copies = all_copies(&node);
     let digest = vec![WNodeDigest { id: WId::from_real(&self_id), heartbeat: 1, last_gc: 0, max_version: (case.known as u64).min(case.keys as u64) }];
     let msg = if case.synack { syn_message(&digest)? } else { synack_message(&digest)? };
@@ -419,7 +436,7 @@ pub fn exec_boundary(case: &BoundaryCase, tally: &mut Tally) -> Result<(), Failu
             }
         }
         // Sweep around the boundary with the full oracle.
-        let start = lo.saturating_sub(12);
+        let start = lo.saturating_sub(if case.tail_member { 70 } else { 12 });
         let mut max_len = 0;
         for l in start..=(lo + 4).min(65_400) {
             let (len, _) = reply_len_for(case, l, tally, true)?;
@@ -446,13 +463,14 @@ pub fn boundary_strategy() -> impl Strategy<Value = BoundaryCase> {
         0u8..4,
         any::<bool>(),
         0u32..1000,
+        prop_oneof![2 => Just(false), 1 => Just(true)],
     )
-        .prop_map(|(class, value_len, seed, known, synack, fill)| {
+        .prop_map(|(class, value_len, seed, known, synack, fill, tail_member)| {
             // Choose the key count so that the keys before the last one use 20..100 % of a datagram.
             let per_key = 19 + value_len as usize;
             let target = 13_000 + (fill as usize * 52_000) / 1000;
             let keys = (target / per_key).clamp(0, 1500) as u16;
-            BoundaryCase { class, value_len, keys, seed, known, synack }
+            BoundaryCase { class, value_len, keys, seed, known, synack, tail_member }
         })
 }
 
